@@ -20,3 +20,12 @@ pub proof fn lemma_sgn_mul(s: Sign, m: nat)
     assert(-1int * (m as int) == -(m as int)) by (nonlinear_arith);
     assert(0int * (m as int) == 0) by (nonlinear_arith);
 }
+
+/// quantified form of lemma_sgn_mul (for magnitudes that are unnamed temporaries)
+pub proof fn lemma_sgn_mul_all(s: Sign)
+    ensures forall|m: nat| #[trigger] (sgn(s) * (m as int)) == (match s { Sign::Minus => -(m as int), Sign::NoSign => 0int, Sign::Plus => m as int })
+{
+    assert forall|m: nat| #[trigger] (sgn(s) * (m as int)) == (match s { Sign::Minus => -(m as int), Sign::NoSign => 0int, Sign::Plus => m as int }) by {
+        lemma_sgn_mul(s, m);
+    }
+}
